@@ -12,7 +12,7 @@ use crate::{
 
 pub fn run(ctx: &mut Ctx) {
     let scratch = Scratch::new();
-    for case in ctx.cases(400, 40_000) {
+    for case in ctx.cases(1_500, 80_000) {
         let mut rng = ctx.rng(case);
         let uni = Universe::new(&mut rng, 1);
         let n = rng.range(3, 14);
